@@ -21,10 +21,12 @@ pub fn schedules(thorough: bool) -> Vec<&'static str> {
         "0 0 1,30 * *", "0 12 2,31 * *", "30 6 */5 * *",
         // day-of-week ranges written up to 7 (Sunday's alias): six days, alone and OR-ed with a day of month
         "30 6 * * 2-7", "0 0 15 * 3-7",
+        // a restricted month with both day fields free (whole allowed blocks separated by long gaps)
+        "0 0 * 2 *",
     ];
     if thorough {
         v.extend([
-            "5 0 * 8 *", "0 22 * * 1-5", "23 0,2,4,6,8,10,12,14,16,18,20 * * *", "5 4 * * sun", "0 0,12 1 */2 *", "0 4 8-14 * *", "59 * * * *", "* 23 * * *", "0 0 30 4,6,9,11 *", "0 0 31 1,3,5 0", "1 1 1 1 1", "*/59 */23 * * *", "0 0 * 2 *", "0 0 28-31 * *", "59 23 * * 6,7",
+            "5 0 * 8 *", "0 22 * * 1-5", "23 0,2,4,6,8,10,12,14,16,18,20 * * *", "5 4 * * sun", "0 0,12 1 */2 *", "0 4 8-14 * *", "59 * * * *", "* 23 * * *", "0 0 30 4,6,9,11 *", "0 0 31 1,3,5 0", "1 1 1 1 1", "*/59 */23 * * *", "0 0 28-31 * *", "59 23 * * 6,7",
             "0 0 29 2 1", "30 12 * * 0-7", "0 0 1 jan *", "* * 29 feb *", "0 0 * dec sat", "*/15 * 1 * *", "0 0 15 * mon", "59 23 28 2 *", "0 0 1 3 *", "0 1 * * *", "0 0 2,9,16,23,30 * *", "7 7 7 7 *", "0 0 * * 2,4", "*/30 */12 1,31 * *",
         ]);
     }
@@ -84,7 +86,7 @@ impl Hash for St {
     }
 }
 
-/// action: 0..9 = advance the clock by ADVANCES[a] then next(); 9..18 = same on a clone of the schedule
+/// action: 0..9 = advance the clock by ADVANCES[a] then next(); 9..18 = same on a clone of the schedule; 18..21 = nth(NTH[a - 18])
 pub struct Machine {
     parsed: Vec<(CronSchedule, Sets)>,
     starts: Vec<i64>,
@@ -118,6 +120,42 @@ fn step(real: &CronSchedule, sets: &Sets, clock: i64, last: Option<i64>, clone_f
     }
 }
 
+/// counts consumed by the nth() actions (Iterator::nth(k) must equal k + 1 calls of next())
+const NTH: [usize; 3] = [1, 2, 40];
+
+/// one nth(k) on the real iterator; the model takes k + 1 steps
+fn step_nth(real: &CronSchedule, sets: &Sets, clock: i64, last: Option<i64>, k: usize) -> (CronSchedule, Option<i64>, Option<String>) {
+    let mut it = real.clone();
+    pin_clock(clock);
+    let now_min = clock.div_euclid(60) + EPOCH_MIN;
+    let mut after = last.map_or(now_min, |l| l.max(now_min));
+    let mut want = None;
+    for _ in 0..=k {
+        want = rc::next_after(sets, after);
+        match want {
+            Some(w) => after = w,
+            None => break,
+        }
+    }
+    let got = call(|| {
+        it.nth(k).map(|x| {
+            let ts = x.timestamp();
+            (ts, x.second(), x.nano())
+        })
+    });
+    match (want, &got) {
+        (Some(w), Out::Val(Some((ts, s, n)))) => {
+            let gm = ts.div_euclid(60) + EPOCH_MIN;
+            if gm == w && ts.rem_euclid(60) == 0 && *s == 0 && *n == 0 {
+                (it, Some(w), None)
+            } else {
+                (it, Some(w), Some(format!("nth({}): expected minute {} ({}), observed timestamp {} second {} nano {}", k, w, show_min(w), ts, s, n)))
+            }
+        }
+        (w, g) => (it, last, Some(format!("nth({}): expected {:?}, observed {}", k, w.map(show_min), g.show()))),
+    }
+}
+
 fn show_min(m: i64) -> String {
     let (y, mo, d) = cal::ymd(m.div_euclid(1440));
     format!("{:04}-{:02}-{:02}T{:02}:{:02}", y, mo, d, m.rem_euclid(1440) / 60, m.rem_euclid(60))
@@ -141,11 +179,19 @@ impl Model for Machine {
             if s.depth >= 1 {
                 a.extend([9, 13, 17]); // clone-and-continue with three of the advances
             }
+            a.extend([18, 19]); // nth(1), nth(2) without moving the clock
+            if s.depth == 0 {
+                a.push(20); // nth(40), from the initial states only (41 reference steps each)
+            }
         }
     }
     fn next_state(&self, s: &St, a: u8) -> Option<St> {
         crate::machine::PIN.with(|_| ());
         self.transitions.fetch_add(1, Ordering::Relaxed);
+        if a >= 18 {
+            let (real, last, bad) = step_nth(&s.real, &self.parsed[s.sched].1, s.clock, s.last, NTH[(a - 18) as usize]);
+            return Some(St { sched: s.sched, real, clock: s.clock, last, bad, depth: s.depth + 1 });
+        }
         let clock = s.clock + ADVANCES[(a % 9) as usize];
         let (real, last, bad) = step(&s.real, &self.parsed[s.sched].1, clock, s.last, a >= 9);
         Some(St { sched: s.sched, real, clock, last, bad, depth: s.depth + 1 })
@@ -174,7 +220,7 @@ fn build(thorough: bool, depth: u8, transitions: Arc<AtomicU64>, errors: &mut Ve
 
 pub fn run(ctx: &Ctx) -> i32 {
     let mut rep = Report::new(ctx);
-    rep.rule = "states = distinct (schedule, pinned clock, last result, live iterator) tuples reached by BFS; transitions = real next() calls under a pinned clock, each compared with the brute-force reference 'earliest whole minute later than max(current minute, previous result) whose month, hour, minute match and whose day matches (dom OR dow when both restricted)'; results must carry zero seconds; a cloned schedule must continue identically".into();
+    rep.rule = "states = distinct (schedule, pinned clock, last result, live iterator) tuples reached by BFS; transitions = real next() calls under a pinned clock, each compared with the brute-force reference 'earliest whole minute later than max(current minute, previous result) whose month, hour, minute match and whose day matches (dom OR dow when both restricted)'; results must carry zero seconds; a cloned schedule must continue identically; Iterator::nth(k) (which skip and step_by are built on) must equal k + 1 calls of next()".into();
     rep.assumptions = vec![
         "schedules on which 'restricted' is ambiguous between set-based and star-based reading (*/2 or 1-31 in day-of-month, 0-6 in day-of-week) are not in the menu; unsatisfiable schedules are excluded".into(),
         "start instants lie in 2021-2028, around 2096-2104 (the eight-year gap between leap days at 2100) and in 2400; the calendar functions the iterator uses are covered over the whole range by C01, C02, C04, C05".into(),
@@ -213,7 +259,7 @@ pub fn run(ctx: &Ctx) -> i32 {
     }
     astrolabe::verif_hooks::set_now(None);
     let name = format!("E2:stateright cron machine depth {} ({} schedules x {} starts)", depth, nsched, nstart);
-    rep.extra.insert(name.clone(), json!({"unique_states": unique, "transitions": n_trans, "max_depth": checker.max_depth(), "actions_per_state": 12, "schedules": nsched, "starts": nstart}));
+    rep.extra.insert(name.clone(), json!({"unique_states": unique, "transitions": n_trans, "max_depth": checker.max_depth(), "actions_per_state": 15, "schedules": nsched, "starts": nstart}));
     rep.acc.merge(acc);
     rep.spaces.push(Space { name, size: unique, exhaustive: true, wall_s: t0.elapsed().as_secs_f64(), note: format!("BFS over every history of (advance the clock by one of 9 amounts, next) up to the depth, plus clone-and-continue; {} transitions", n_trans) });
     eprintln!("[C17 {}] E2 cron machine unique={} transitions={} {:.1}s", PROFILE, unique, n_trans, t0.elapsed().as_secs_f64());
@@ -230,8 +276,10 @@ pub fn replay(_op: &str, case: &Value, acc: &mut Acc) -> bool {
     let mut last = None;
     for (k, a) in case["actions"].as_array().unwrap().iter().enumerate() {
         let a = a.as_u64().unwrap() as u8;
-        clock += ADVANCES[(a % 9) as usize];
-        let (r, l, bad) = step(&real, &sets, clock, last, a >= 9);
+        if a < 18 {
+            clock += ADVANCES[(a % 9) as usize];
+        }
+        let (r, l, bad) = if a >= 18 { step_nth(&real, &sets, clock, last, NTH[(a - 18) as usize]) } else { step(&real, &sets, clock, last, a >= 9) };
         if let Some(b) = bad {
             acc.violation("CronSchedule::next", &format!("history-step-{}", k), case.clone(), "agreement with the reference".into(), b);
             return true;
